@@ -207,7 +207,17 @@ func diffSnap(before, after snapshot) []change {
 			}
 			out = append(out, change{p, "created", d})
 		} else if a != b {
-			out = append(out, change{p, "changed", fmt.Sprintf("%v -> %v", b, a)})
+			d := b.Type + " -> " + a.Type
+			if a.Sum != b.Sum {
+				d += ", content changed"
+			}
+			if a.Mode != b.Mode {
+				d += fmt.Sprintf(", mode %v -> %v", b.Mode, a.Mode)
+			}
+			if a.Link != b.Link {
+				d += ", link target changed"
+			}
+			out = append(out, change{p, "changed", d})
 		}
 	}
 	for p := range before {
